@@ -171,13 +171,46 @@ theorem addSlot_inv {tcp ex c} (h : LaneInv tcp ex c) (s : Slot) (hs : SlotOK tc
     · exact h.ok s' h'
     · subst h'; exact hs
 
-theorem verbatim_ok (tcp : Bool) (pkt : Bytes) :
-    SlotOK tcp { verbatim := true, rawPkt := pkt, ghost := [pkt] } :=
+/-- a verbatim slot is fine whatever else the recycled slot object still contained -/
+theorem verbatim_ok (tcp : Bool) (blank : Slot) (pkt : Bytes) :
+    SlotOK tcp { blank with verbatim := true, rawPkt := pkt, ghost := [pkt] } :=
   { verb := fun _ => rfl, coal := fun h => by simp at h }
 
+/-! taking a slot object from the pool changes nothing but the pool -/
+@[simp] theorem take_slots (c : Lane) : c.take.2.slots = c.slots := by
+  unfold Lane.take; split <;> rfl
+@[simp] theorem take_openSlots (c : Lane) : c.take.2.openSlots = c.openSlots := by
+  unfold Lane.take; split <;> rfl
+@[simp] theorem take_lastSlot (c : Lane) : c.take.2.lastSlot = c.lastSlot := by
+  unfold Lane.take; split <;> rfl
+
+/-- the invariant does not mention the pool -/
+theorem laneInv_congr {tcp ex} {c c' : Lane} (h : LaneInv tcp ex c) (hs : c'.slots = c.slots)
+    (ho : c'.openSlots = c.openSlots) (hl : c'.lastSlot = c.lastSlot) : LaneInv tcp ex c' := by
+  constructor
+  · intro i hi; rw [hl] at hi; rw [hs, ho]; exact h.lock i hi
+  · intro k i hk; rw [ho] at hk; rw [hs]; exact h.key k i hk
+  · intro k i s hk hsl; rw [ho] at hk; rw [hs] at hsl; exact h.opn k i s hk hsl
+  · intro s hsm; rw [hs] at hsm; exact h.ok s hsm
+
+theorem take_inv {tcp ex c} (h : LaneInv tcp ex c) : LaneInv tcp ex c.take.2 :=
+  laneInv_congr h (take_slots c) (take_openSlots c) (take_lastSlot c)
+
+theorem seedSlotFrom_eq (blank : Slot) (tcp : Bool) (pkt : Bytes) (info : Parsed) :
+    seedSlotFrom blank tcp pkt info = seedSlot tcp pkt info := rfl
+
+theorem addVerbatim_eq (c : Lane) (pkt : Bytes) : c.addVerbatim pkt = c.take.2.pushVerbatim c.take.1 pkt := rfl
+
+@[simp] theorem addVerbatim_openSlots (c : Lane) (pkt : Bytes) : (c.addVerbatim pkt).openSlots = c.openSlots := by
+  rw [addVerbatim_eq]; simp [Lane.pushVerbatim]
+@[simp] theorem addVerbatim_slots (c : Lane) (pkt : Bytes) :
+    (c.addVerbatim pkt).slots = c.slots ++ [{ c.take.1 with verbatim := true, rawPkt := pkt, ghost := [pkt] }] := by
+  rw [addVerbatim_eq]; simp [Lane.pushVerbatim]
+
 theorem addVerbatim_inv {tcp ex c} (h : LaneInv tcp ex c) (pkt : Bytes) :
-    LaneInv tcp ex (c.addVerbatim pkt) :=
-  addSlot_inv h _ (verbatim_ok tcp pkt)
+    LaneInv tcp ex (c.addVerbatim pkt) := by
+  rw [addVerbatim_eq]
+  exact addSlot_inv (take_inv h) _ (verbatim_ok tcp _ pkt)
 
 /-- `sealFlow fk` re-establishes the full invariant when `fk` was the only exception. -/
 theorem sealFlow_inv {tcp c} (fk : FlowKey) (ex : Option FlowKey) (hex : ex = none ∨ ex = some fk)
@@ -323,15 +356,18 @@ theorem bufSize_eq (tcp : Bool) :
     (if tcp = true then batch_tcpCoalesceBufSize else batch_udpCoalesceBufSize) = 65535 := by
   cases tcp <;> rfl
 
-theorem seed_inv {tcp c pkt iphl info} (h : LaneInv tcp none c) (pre : CommitPre tcp pkt iphl info) :
-    LaneInv tcp none (c.seed tcp pkt info) := by
-  unfold Lane.seed
-  rw [bufSize_eq]
-  by_cases hbig : info.hdrLen + info.payLen > 65535
-  · simp only [hbig, ↓reduceIte]
-    exact addVerbatim_inv (sealFlow_inv info.fk none (Or.inl rfl) h) pkt
-  · simp only [hbig, ↓reduceIte]
-    have hok := seedSlot_ok pre (by omega)
+theorem seed_eq (tcp : Bool) (c : Lane) (pkt : Bytes) (info : Parsed) :
+    c.seed tcp pkt info =
+      if info.hdrLen + info.payLen > 65535 then (c.sealFlow info.fk).addVerbatim pkt
+      else c.take.2.seedTaken tcp c.take.1 pkt info := by
+  unfold Lane.seed; rw [bufSize_eq]
+
+theorem seedTaken_inv {tcp c pkt iphl info} (blank : Slot) (h : LaneInv tcp none c) (pre : CommitPre tcp pkt iphl info)
+    (hbig : ¬ info.hdrLen + info.payLen > 65535) :
+    LaneInv tcp none (c.seedTaken tcp blank pkt info) := by
+  unfold Lane.seedTaken
+  simp only [seedSlotFrom_eq]
+  · have hok := seedSlot_ok pre (by omega)
     by_cases hp : tcp = true ∧ hasPsh info.flags = true
     · rw [if_pos hp]
       exact sealFlow_inv info.fk none (Or.inl rfl) (addSlot_inv h _ hok)
@@ -379,6 +415,15 @@ theorem seed_inv {tcp c pkt iphl info} (h : LaneInv tcp none c) (pre : CommitPre
         rcases hs' with h' | h'
         · exact h.ok s' h'
         · subst h'; exact hok
+
+theorem seed_inv {tcp c pkt iphl info} (h : LaneInv tcp none c) (pre : CommitPre tcp pkt iphl info) :
+    LaneInv tcp none (c.seed tcp pkt info) := by
+  rw [seed_eq]
+  by_cases hbig : info.hdrLen + info.payLen > 65535
+  · rw [if_pos hbig]
+    exact addVerbatim_inv (sealFlow_inv info.fk none (Or.inl rfl) h) pkt
+  · rw [if_neg hbig]
+    exact seedTaken_inv _ (take_inv h) pre hbig
 
 /-! ### appending to an open slot -/
 
@@ -591,27 +636,34 @@ theorem lanePkts_sealFlow (c : Lane) (fk : FlowKey) : lanePkts (c.sealFlow fk) =
 theorem lanePkts_sealAllOpen (c : Lane) : lanePkts c.sealAllOpen = lanePkts c := rfl
 
 theorem lanePkts_addVerbatim (c : Lane) (pkt : Bytes) : lanePkts (c.addVerbatim pkt) = lanePkts c ++ [pkt] := by
-  simp [lanePkts, Lane.addVerbatim]
+  rw [addVerbatim_eq]
+  simp [lanePkts, Lane.pushVerbatim]
 
 theorem lanePkts_addSlot (c : Lane) (s : Slot) :
     lanePkts { c with slots := c.slots ++ [s] } = lanePkts c ++ s.ghost := by
   simp [lanePkts]
 
+theorem lanePkts_seedTaken (tcp : Bool) (c : Lane) (blank : Slot) (pkt : Bytes) (info : Parsed) :
+    lanePkts (c.seedTaken tcp blank pkt info) = lanePkts c ++ [pkt] := by
+  unfold Lane.seedTaken
+  simp only [seedSlotFrom_eq]
+  by_cases hp : tcp = true ∧ hasPsh info.flags = true
+  · rw [if_pos hp, lanePkts_sealFlow, lanePkts_addSlot]; rfl
+  · rw [if_neg hp]
+    show lanePkts { c with slots := c.slots ++ [seedSlot tcp pkt info],
+                           openSlots := omInsert c.openSlots info.fk c.slots.length,
+                           lastSlot := some c.slots.length } = _
+    simp [lanePkts, seedSlot]
+
+theorem lanePkts_take (c : Lane) : lanePkts c.take.2 = lanePkts c := by
+  simp [lanePkts]
+
 theorem lanePkts_seed (tcp : Bool) (c : Lane) (pkt : Bytes) (info : Parsed) :
     lanePkts (c.seed tcp pkt info) = lanePkts c ++ [pkt] := by
-  unfold Lane.seed
-  rw [bufSize_eq]
+  rw [seed_eq]
   by_cases hbig : info.hdrLen + info.payLen > 65535
   · rw [if_pos hbig, lanePkts_addVerbatim, lanePkts_sealFlow]
-  · rw [if_neg hbig]
-    simp only
-    by_cases hp : tcp = true ∧ hasPsh info.flags = true
-    · rw [if_pos hp, lanePkts_sealFlow, lanePkts_addSlot]; rfl
-    · rw [if_neg hp]
-      show lanePkts { c with slots := c.slots ++ [seedSlot tcp pkt info],
-                             openSlots := omInsert c.openSlots info.fk c.slots.length,
-                             lastSlot := some c.slots.length } = _
-      simp [lanePkts, seedSlot]
+  · rw [if_neg hbig, lanePkts_seedTaken, lanePkts_take]
 
 /-! ### replacing a slot by its extension -/
 
